@@ -223,7 +223,7 @@ def pegEvent (kind : String) (m : PegMsg) : Event := ⟨kind, m.chain, m.sender,
 /-- `msgServer.Lock` + `ProcessLock` -/
 def lock (s : BState) (m : PegMsg) : R (BState × Event) :=
   if s.paused then .error (.err .paused)
-  else if s.peggy.contains m.symbol then .error (.err .other)
+  else if s.peggy.contains m.symbol then .error (.err .pegged)
   else if !s.bank.acc m.sender then .error (.err .other)
   else if isBlacklisted s m.receiver then .error (.err .ethaddr)
   else match pegMove s m false with
@@ -233,7 +233,7 @@ def lock (s : BState) (m : PegMsg) : R (BState × Event) :=
 /-- `msgServer.Burn` + `ProcessBurn` -/
 def burn (s : BState) (m : PegMsg) : R (BState × Event) :=
   if s.paused then .error (.err .paused)
-  else if !s.peggy.contains m.symbol then .error (.err .other)
+  else if !s.peggy.contains m.symbol then .error (.err .native)
   else if !s.bank.acc m.sender then .error (.err .other)
   else if isBlacklisted s m.receiver then .error (.err .ethaddr)
   else match pegMove s m true with
